@@ -104,6 +104,28 @@ func genScenario(t *rapid.T) *modsim.Scenario {
 	for i, m := range sc.Modules {
 		all[i] = m.Name
 	}
+	// stop routines that fail: the module still waits for its work
+	for i := range sc.Modules {
+		if rapid.IntRange(0, 5).Draw(t, "stopfault") == 0 {
+			sc.Modules[i].Stop.Fault = rapid.SampledFrom([]string{"error", "panic"}).Draw(t, "stopfaultkind")
+			if sc.Modules[i].Stop.Fault == "panic" {
+				sc.Modules[i].Stop.Panic = "string"
+			}
+		}
+	}
+	if rapid.IntRange(0, 7).Draw(t, "slotcase") == 0 {
+		// the microtask limit is used up by high-priority microtasks of a dependency, so no time slots are handed
+		// out: a task queued on the dependent module has been admitted but waits for its slot when the module is
+		// stopped. It is never executed, and nothing of it may hold up the stop.
+		sc.Modules = []modsim.Module{{Name: "m0"}, {Name: "m1", Deps: []string{"m0"}}}
+		sc.MicroTaskLimit = 2
+		for k := 1; k <= 3; k++ {
+			sc.Modules[0].Work = append(sc.Modules[0].Work, modsim.Work{ID: k, Kind: "run_mt_high", Mode: "waitctx", DelayUS: 300})
+		}
+		sc.Modules[1].Work = []modsim.Work{{ID: 4, Kind: rapid.SampledFrom([]string{"task", "schedtask"}).Draw(t, "slotkind"), Mode: "finish", HoldUS: 2000, NoWait: true}}
+		sc.Steps = []modsim.Step{{Op: "start"}, {Op: "launch", Mods: []string{"m0", "m1"}}, {Op: "sleep", US: rapid.SampledFrom([]int{2000, 20000}).Draw(t, "slotsleep")}, {Op: "shutdown"}, {Op: "poststop", Mods: []string{"m0", "m1"}}}
+		return sc
+	}
 	if rapid.IntRange(0, 5).Draw(t, "retrycase") == 0 {
 		// a start routine that launches part of its work itself and then fails; the module is started again by the next
 		// management pass (the work of the failed attempt must be cancelled by then) and finally stopped
